@@ -90,6 +90,13 @@ def strip_outer(t):
     return t
 
 
+def undecide(t):
+    """`decide (p)` -> `p` (an `if` on a single comparison is emitted on the proposition); other Boolean bodies unchanged"""
+    if t.startswith('decide (') and strip_outer(t[7:]) != t[7:]:
+        return strip_outer(t[7:])
+    return strip_outer(t)
+
+
 P0, P1 = '⟦0⟧', '⟦1⟧'      # placeholders of the element variables inside an `ew` body
 
 
@@ -103,13 +110,16 @@ class V:
         self.body = body        # element expression with placeholders
         self.elem = elem        # 'scal' | 'nat' | 'bool'  (kind of the element expression)
         self.belem = belem      # element kinds of the bases
+        self.nonempty = False   # arrays: syntactically non-empty (built by an insert); nat: syntactically ≥ 1 (its length)
 
     def __repr__(self):
         return f"V({self.kind},{self.text},{self.bases},{self.body})"
 
 
-def arr_of(text, elem='scal'):
-    return V('arr' if elem == 'scal' else 'idx', bases=[text], body=P0, elem=elem, belem=[elem])
+def arr_of(text, elem='scal', nonempty=False):
+    v = V('arr' if elem == 'scal' else 'idx', bases=[text], body=P0, elem=elem, belem=[elem])
+    v.nonempty = nonempty
+    return v
 
 
 class Tr:
@@ -123,8 +133,11 @@ class Tr:
         self.opts = opts or {}
         self.lines = []
         self.bound = {}
-        self.counter = [0]
+        self.counter = [0, 0]
         self.used_flags = set()
+        for k, v in self.env.items():
+            if isinstance(v.text, str) and re.fullmatch(r'x|y|[vt][0-9]+|pow|sqrt|pi|default', v.text) and v.kind in ('scal', 'nat') and k != v.text:
+                raise Untranslatable(fname, 0, f"parameter name {k} clashes with a reserved name")
 
     # ---------------------------------------------------------------- helpers
     def fail(self, node, what):
@@ -148,6 +161,16 @@ class Tr:
         self.lines.append(f"let {v} ← {mtext}")
         return v
 
+    def let(self, text):
+        key = ':= ' + text
+        if key in self.bound:
+            return self.bound[key]
+        self.counter[1] += 1
+        v = f"t{self.counter[1]}"
+        self.bound[key] = v
+        self.lines.append(f"let {v} := {strip_outer(text)}")
+        return v
+
     def is_ew(self, v):
         return v.kind in ('arr', 'idx', 'mask')
 
@@ -167,7 +190,10 @@ class Tr:
         if v.kind in ('scal', 'int'):
             return v.text
         if v.kind == 'nat':
-            return f"({strip_outer(v.text)} : α)"
+            t = strip_outer(v.text)
+            if re.fullmatch(r'[A-Za-z_][A-Za-z_0-9.]*', t):
+                return f"({t} : α)"
+            return f"(({t} : Nat) : α)"          # the cast of the integer expression, not of its operands
         self.fail(node, f"expected a number, got {v.kind}")
 
     def nat(self, v, node=None):
@@ -207,6 +233,8 @@ class Tr:
         seg = ast.get_source_segment(self.src, node)
         if isinstance(node.value, bool) or not isinstance(node.value, (int, float)):
             self.fail(node, "literal")
+        if id(node) in self.opts.get('lit_subst', {}):
+            return V('scal', self.opts['lit_subst'][id(node)])      # a literal extracted elsewhere (Gen/Consts.lean): a parameter here
         t = lit_text(seg)
         if re.fullmatch(r'[0-9]+', t):
             return V('int', t)
@@ -238,6 +266,10 @@ class Tr:
             self.fail(e, "attribute")
         if isinstance(e, ast.Tuple):
             return V('tuple', [self.tr(x) for x in e.elts])
+        if isinstance(e, ast.List) and not e.elts and self.opts.get('loops'):
+            v = arr_of('[]')
+            v.empty = True
+            return v
         if isinstance(e, ast.UnaryOp) and isinstance(e.op, ast.USub):
             v = self.tr(e.operand)
             if v.kind == 'scal':
@@ -286,8 +318,8 @@ class Tr:
                 if l.kind == r.kind == 'int':
                     self.fail(e, "arithmetic on two integer literals")
                 return V('nat', f"({l.text} {op} {r.text})")
-            if op == '-' and r.kind == 'int' and self.opts.get('nat_sub'):
-                return V('nat', f"({l.text} - {r.text})")     # only where the translator has checked l ≥ r (len(x) - 1 of a non-empty x)
+            if op == '-' and r.kind == 'int' and r.text == '1' and l.kind == 'nat' and l.nonempty:
+                return V('nat', f"({l.text} - 1)")     # `len(x) - 1` of a syntactically non-empty x: exact in Nat
             if op == '/':
                 return V('scal', f"({self.scal(l, e)} / {self.scal(r, e)})")
             self.fail(e, "integer subtraction")
@@ -353,7 +385,7 @@ class Tr:
         if v.kind == 'arr':
             i = self.tr(s)
             if i.kind == 'wh':
-                return arr_of(f"(Np.takeIdx {self.mat(v, e)} {i.text})")
+                return arr_of(self.bind(f"pyTake {self.mat(v, e)} {i.text}"))
             if i.kind == 'nat' and self.opts.get('getelem'):
                 return V('scal', self.bind(f"pyGet {self.mat(v, e)} {i.text}"))
         self.fail(e, "subscript")
@@ -386,11 +418,11 @@ class Tr:
         if name == 'np.where' and len(a) == 3 and not kw:
             c, x, y = self.tr(a[0]), self.tr(a[1]), self.tr(a[2])
             if c.kind == 'mask':
-                return self.ew_combine([c, x, y], e, lambda t: f"(if {strip_outer(t[0])} then {t[1]} else {t[2]})", 'scal')
+                return self.ew_combine([c, x, y], e, lambda t: f"(if {undecide(t[0])} then {t[1]} else {t[2]})", 'scal')
         if name == 'np.take' and len(a) == 2 and not kw:
             v, i = self.tr(a[0]), self.tr(a[1])
             if v.kind == 'arr' and i.kind == 'idx':
-                return arr_of(f"(Np.takeIdx {self.mat(v, e)} {self.mat(i, e)})")
+                return arr_of(self.bind(f"pyTake {self.mat(v, e)} {self.mat(i, e)}"))
         if name == 'np.arange' and len(a) == 1 and not kw:
             n = self.tr(a[0])
             if n.kind == 'nat':
@@ -402,16 +434,18 @@ class Tr:
         if name == 'len' and len(a) == 1 and not kw:
             v = self.tr(a[0])
             if v.kind in ('arr', 'idx'):
-                return V('nat', f"{self.mat(v, e)}.length")
+                n = V('nat', f"{self.mat(v, e)}.length")
+                n.nonempty = v.nonempty and v.body == P0
+                return n
         if name == 'np.insert' and len(a) == 3 and not kw:
             v, val = self.tr(a[0]), self.tr(a[2])
             if v.kind in ('arr', 'idx'):
                 want = self.scal(val, e) if v.kind == 'arr' else self.nat(val, e)
                 if self.index_const(a[1]) == 0:
-                    return arr_of(f"({want} :: {self.mat(v, e)})", v.elem)
+                    return arr_of(f"({want} :: {self.mat(v, e)})", v.elem, nonempty=True)
                 pos = self.tr(a[1])
                 if pos.kind == 'nat':
-                    return arr_of(f"(List.insertIdx {self.mat(v, e)} {pos.text} {want})", v.elem)
+                    return arr_of(f"(List.insertIdx {self.mat(v, e)} {pos.text} {want})", v.elem, nonempty=v.nonempty and v.body == P0)
         if name == 'np.sqrt' and len(a) == 1 and not kw and self.opts.get('sqrt'):
             v = self.tr(a[0])
             if self.is_ew(v) and v.elem == 'scal':
@@ -426,6 +460,44 @@ class Tr:
             v = self.tr(a[0])
             if v.kind == 'arr':
                 return V('scal', self.bind(f"pyMax {self.mat(v, e)}"))
+        if name == 'interp1d' and len(a) == 2 and self.opts.get('interp1d_previous'):
+            kwt = {k: (v.value if isinstance(v, ast.Constant) else None) for k, v in kw.items()}
+            if kwt == {'kind': 'previous', 'axis': 0} or kwt == {'kind': 'previous'}:
+                xs, ys = self.tr(a[0]), self.tr(a[1])
+                if xs.kind == 'idx' and ys.kind == 'arr':
+                    return V('interp_prev', (self.mat(xs, e), self.mat(ys, e)))
+        if isinstance(e.func, ast.Name) and e.func.id in self.env and self.env[e.func.id].kind == 'interp_prev' and len(a) == 1 and not kw:
+            q = self.tr(a[0])
+            if q.kind == 'idx' and q.body == P0:
+                xs, ys = self.env[e.func.id].text
+                return V('arr', bases=list(q.bases), body=f"(interp1dPrevious {xs} {ys} {P0})", elem='scal', belem=['nat'])
+        if name == 'np.reshape' and len(a) == 2 and not kw and self.opts.get('column'):
+            v, n = self.tr(a[0]), a[1]
+            # (k,1) -> (k,): identity on the 1-D model; the target length must be `len(<array parameter>)`
+            if v.kind == 'arr' and isinstance(n, ast.Call) and self.np_name(n.func) == 'len' and len(n.args) == 1 and \
+                    isinstance(n.args[0], ast.Name) and n.args[0].id in self.opts.get('array_params', ()):
+                return v
+        if self.opts.get('loops'):
+            if name == 'int' and len(a) == 1 and not kw:
+                v = self.tr(a[0])
+                if v.kind == 'scal':
+                    return V('nat', f"(int {v.text})")       # Python `int()` of a non-negative number: a parameter
+            if name == 'np.arange' and len(a) == 3 and not kw:
+                vs = [self.tr(x) for x in a]
+                if all(v.kind in ('scal', 'int') for v in vs):
+                    return arr_of("(arange3 " + " ".join(self.scal(v, e) for v in vs) + ")")
+            if name == 'trapezoid' and len(a) == 2 and not kw:
+                y, x = self.tr(a[0]), self.tr(a[1])
+                if y.kind == x.kind == 'arr':
+                    return V('scal', f"(trapezoid {self.mat(y, e)} {self.mat(x, e)})")
+            if name == 'np.array' and len(a) == 1 and not kw:
+                v = self.tr(a[0])
+                if v.kind == 'arr':
+                    return v                                 # a copy of an array / the array of a list of numbers
+            if name == 'np.interp' and len(a) == 3 and not kw:
+                x, xp, fp = self.tr(a[0]), self.tr(a[1]), self.tr(a[2])
+                if x.kind == 'arr' and xp.kind == 'idx' and fp.kind == 'arr':
+                    return arr_of(self.bind(f"interp {self.mat(x, e)} {self.mat(xp, e)} {self.mat(fp, e)}"))
         if name in self.registry:
             return self.registry[name](self, e)
         # call of an optional callable parameter on the object parameter: `im(asig)`
@@ -454,6 +526,74 @@ class Tr:
                 return self.mat(v, node)
         self.fail(node, f"return value is not of the expected shape `{want}`")
 
+    def loop_body(self, stmts):
+        """statements of a loop body (no return): updates self.env, appends binds to self.lines"""
+        k = 0
+        while k < len(stmts):
+            st = stmts[k]
+            k += 1
+            if isinstance(st, ast.Assign) and len(st.targets) == 1 and isinstance(st.targets[0], ast.Name):
+                self.env[st.targets[0].id] = self.tr(st.value)
+                continue
+            # X.append(e)
+            if isinstance(st, ast.Expr) and isinstance(st.value, ast.Call) and isinstance(st.value.func, ast.Attribute) and \
+                    st.value.func.attr == 'append' and isinstance(st.value.func.value, ast.Name) and len(st.value.args) == 1 and \
+                    not st.value.keywords and self.env.get(st.value.func.value.id, V('x')).kind == 'arr':
+                x = st.value.func.value.id
+                v = self.tr(st.value.args[0])
+                self.env[x] = arr_of(f"({self.mat(self.env[x], st)} ++ [{strip_outer(self.scal(v, st))}])")
+                continue
+            # gather: X = [] (just before); for j in range(lo, hi): X.append(A[j])
+            if isinstance(st, ast.For):
+                prev = stmts[k - 2] if k >= 2 else None
+                b = st.body[0] if len(st.body) == 1 else None
+                ok = (not st.orelse and isinstance(st.target, ast.Name) and isinstance(st.iter, ast.Call) and
+                      self.np_name(st.iter.func) == 'range' and len(st.iter.args) == 2 and not st.iter.keywords and
+                      isinstance(b, ast.Expr) and isinstance(b.value, ast.Call) and isinstance(b.value.func, ast.Attribute) and
+                      b.value.func.attr == 'append' and isinstance(b.value.func.value, ast.Name) and len(b.value.args) == 1 and
+                      isinstance(b.value.args[0], ast.Subscript) and isinstance(b.value.args[0].slice, ast.Name) and
+                      b.value.args[0].slice.id == st.target.id and isinstance(b.value.args[0].value, ast.Name) and
+                      isinstance(prev, ast.Assign) and isinstance(prev.targets[0], ast.Name) and
+                      prev.targets[0].id == b.value.func.value.id and isinstance(prev.value, ast.List) and not prev.value.elts)
+                if not ok:
+                    self.fail(st, "inner loop is not `X = []; for j in range(lo, hi): X.append(A[j])`")
+                lo, hi = self.tr(st.iter.args[0]), self.tr(st.iter.args[1])
+                src_arr = self.tr(b.value.args[0].value)
+                if src_arr.kind != 'arr' or lo.kind not in ('nat', 'int') or hi.kind not in ('nat', 'int'):
+                    self.fail(st, "gather loop operands")
+                self.env[prev.targets[0].id] = arr_of(self.bind(f"pyGetRange {self.mat(src_arr, st)} {lo.text} {hi.text}"))
+                continue
+            if isinstance(st, ast.If):
+                # `if c: x = e` on an already defined scalar x
+                if not st.orelse and len(st.body) == 1 and isinstance(st.body[0], ast.Assign) and \
+                        isinstance(st.body[0].targets[0], ast.Name) and st.body[0].targets[0].id in self.env:
+                    x = st.body[0].targets[0].id
+                    c, v, old = self.tr(st.test), self.tr(st.body[0].value), self.env[x]
+                    if c.kind == 'bool' and v.kind in ('scal', 'int') and old.kind in ('scal', 'int'):
+                        self.env[x] = V('scal', f"(if {undecide(c.text)} then {self.scal(v, st)} else {self.scal(old, st)})")
+                        continue
+                # `if c1: x = e1  elif c2: x = e2  else: raise ValueError(...)`
+                chain, cur = [], st
+                while True:
+                    if len(cur.body) != 1 or not isinstance(cur.body[0], ast.Assign) or not isinstance(cur.body[0].targets[0], ast.Name):
+                        self.fail(cur, "if statement in a loop body")
+                    c, v = self.tr(cur.test), self.tr(cur.body[0].value)
+                    if c.kind != 'bool' or v.kind not in ('scal', 'int'):
+                        self.fail(cur, "if statement in a loop body")
+                    chain.append((cur.body[0].targets[0].id, undecide(c.text), self.scal(v, cur)))
+                    if len(cur.orelse) == 1 and isinstance(cur.orelse[0], ast.If):
+                        cur = cur.orelse[0]
+                        continue
+                    break
+                els = cur.orelse
+                if len({x for x, _, _ in chain}) == 1 and len(els) == 1 and isinstance(els[0], ast.Raise) and \
+                        isinstance(els[0].exc, ast.Call) and isinstance(els[0].exc.func, ast.Name) and els[0].exc.func.id == 'ValueError':
+                    txt = " else ".join(f"if {c} then pure {v}" for _, c, v in chain) + " else Except.error ErrKind.ValueError"
+                    self.env[chain[0][0]] = V('scal', self.bind(f"({txt} : Except ErrKind α)"))
+                    continue
+                self.fail(st, "if statement in a loop body")
+            self.fail(st, f"statement {type(st).__name__} in a loop body")
+
     def block(self, stmts, want):
         """translate a statement list every path of which returns; result: Lean `do` block text (list of lines)"""
         for k, st in enumerate(stmts):
@@ -476,7 +616,12 @@ class Tr:
             if isinstance(st, ast.Assign) and len(st.targets) == 1 and isinstance(st.targets[0], ast.Name):
                 if st.targets[0].id in self.flags:
                     self.fail(st, "assignment to a flag parameter")
-                self.env[st.targets[0].id] = self.tr(st.value)
+                v = self.tr(st.value)
+                if self.is_ew(v) and v.body == P0 and len(v.bases) == 1 and len(v.bases[0]) > 40:
+                    # a long materialised array is let-bound once (canonical name), later uses refer to the name
+                    nv = arr_of(self.let(v.bases[0]), v.elem, v.nonempty)
+                    v = nv
+                self.env[st.targets[0].id] = v
                 continue
             if isinstance(st, ast.If):
                 t = st.test
@@ -600,6 +745,14 @@ def flag_value(tr, e, got, flag):
     tr.fail(e, f"value of flag {flag} is not static")
 
 
+def emit_def(doc, name, sig, ret, lines):
+    """a function without partial operations is emitted as a plain (total) definition"""
+    if lines[-1].startswith('pure ') and not any('←' in x or 'catchIndexError' in x for x in lines):
+        body = "\n".join("  " + x for x in lines[:-1] + [strip_outer(lines[-1][5:])])
+        return f"/-- {doc} -/\ndef {name} {sig} : {ret} :=\n{body}"
+    return do_def(doc, name, sig, f"Except ErrKind ({ret})", lines)
+
+
 def do_def(doc, name, sig, ret, lines):
     ret = re.sub(r'\((\w+)\)$', r'\1', ret)
     out = [f"/-- {doc} -/", f"def {name} {sig} : {ret} := do"]
@@ -619,11 +772,34 @@ def pyLast {β : Type} (l : List β) : Except ErrKind β :=
   | some x => .ok x
   | none => .error .IndexError
 
+/-- `l[idx]` / `np.take(l, idx)` for an index array (`IndexError` when an index is out of range) -/
+def pyTake {β : Type} [Inhabited β] (l : List β) (idx : List Nat) : Except ErrKind (List β) :=
+  if idx.all (fun i => decide (i < l.length)) then .ok (Np.takeIdx l idx) else .error .IndexError
+
 /-- `try: body  except IndexError: handler` -/
 def catchIndexError {β : Type} (body handler : Except ErrKind β) : Except ErrKind β :=
   match body with
   | .error .IndexError => handler
   | r => r
+"""
+
+PREAMBLE_MAX = """/-- `np.max(l)` / `max(l)` (`ValueError` on an empty array) -/
+def pyMax {β : Type} [LT β] [DecidableLT β] (l : List β) : Except ErrKind β :=
+  match Np.maxL? l with
+  | some x => .ok x
+  | none => .error .ValueError
+"""
+
+PREAMBLE_LOOP = """/-- `X = []; for j in range(lo, hi): X.append(l[j])`: the samples `l[lo:hi]`; `IndexError` as soon as some `j` is out of range -/
+def pyGetRange {β : Type} (l : List β) (lo hi : Nat) : Except ErrKind (List β) :=
+  if hi ≤ l.length ∨ hi ≤ lo then .ok (Np.slice l lo hi) else .error .IndexError
+
+/-- `for i in range(0, n): s = body(s)` (the body does not read `i`) -/
+def forRange {σ : Type} (body : σ → Except ErrKind σ) : Nat → σ → Except ErrKind σ
+  | 0, s => .ok s
+  | n + 1, s => do
+    let s' ← body s
+    forRange body n s'
 """
 
 # ==============================================================================================
@@ -820,7 +996,220 @@ def gen_im_dur(repo, ns):
     return {"ImDur.lean": "\n".join(text)}
 
 
-TARGETS += [gen_im_dur]
+# ==============================================================================================
+# target 3: power-law cycle counting (scalar exponent `b`)
+# ==============================================================================================
+
+SWITCHED = 'eqsig.fns.peaks_and_crossings.get_switched_peak_array_indices'
+
+
+def gen_im_power(repo, ns):
+    src = open(os.path.join(repo, 'eqsig', 'im.py')).read()
+    mod = ast.parse(src)
+    defs = []
+
+    def reg_switched(tr, e):
+        if len(e.args) != 1 or e.keywords:
+            tr.fail(e, "arguments of get_switched_peak_array_indices")
+        v = tr.tr(e.args[0])
+        if v.kind != 'arr':
+            tr.fail(e, "argument of get_switched_peak_array_indices")
+        return arr_of(f"(switchedPeaks {tr.mat(v, e)})", 'nat')      # the C12 function: a parameter here
+
+    base_opts = {'pow': True, 'column': True, 'axis0': True, 'scalar_params': ('b',)}
+
+    # ---- calc_n_cyc_array_w_power_law --------------------------------------------------------------
+    fn = find_function(mod, 'calc_n_cyc_array_w_power_law')
+    check_params(fn, ['values', 'a_ref', 'b', 'cut_off'])
+    d = param_defaults(fn, src)
+    node = d.get('cut_off')
+    if set(d) != {'cut_off'} or not isinstance(node, ast.Constant) or isinstance(node.value, bool) or not isinstance(node.value, (int, float)):
+        raise Untranslatable(fn.name, fn.lineno, "defaults")
+    defs.append(f"/-- default of parameter `cut_off` of `calc_n_cyc_array_w_power_law` -/\ndef nCycCutOffDefault : α := {lit_text(ast.get_source_segment(src, node))}")
+    env = {'values': arr_of('values'), 'a_ref': V('scal', 'a_ref'), 'b': V('scal', 'b'), 'cut_off': V('scal', 'cut_off')}
+    t = Tr(fn.name, src, mod, env, registry={SWITCHED: reg_switched},
+           opts=dict(base_opts, interp1d_previous=True, array_params=('values',)))
+    lines = t.block(fn.body, 'arr')
+    defs.append(emit_def("`calc_n_cyc_array_w_power_law(values, a_ref, b, cut_off)` for a scalar `b`; `pow x y = x ** y`, `switchedPeaks` = "
+                         "`get_switched_peak_array_indices`", 'nCycArray',
+                         "(pow : α → α → α) (switchedPeaks : List α → List Nat) (values : List α) (a_ref b cut_off : α)", "List α", lines))
+
+    # ---- calc_cyc_amp_array_w_power_law ------------------------------------------------------------
+    fn = find_function(mod, 'calc_cyc_amp_array_w_power_law')
+    check_params(fn, ['values', 'n_cyc', 'b'])
+    if param_defaults(fn, src):
+        raise Untranslatable(fn.name, fn.lineno, "defaults")
+    env = {'values': arr_of('values'), 'n_cyc': V('scal', 'n_cyc'), 'b': V('scal', 'b')}
+    t = Tr(fn.name, src, mod, env, registry={SWITCHED: reg_switched}, opts=dict(base_opts, array_params=('values',)))
+    lines = t.block(fn.body, 'arr')
+    amp_monadic = not (len(lines) == 1 and lines[0].startswith('pure '))
+    defs.append(emit_def("`calc_cyc_amp_array_w_power_law(values, n_cyc, b)` for a scalar `b`", 'cycAmpArray',
+                         "(pow : α → α → α) (switchedPeaks : List α → List Nat) (values : List α) (n_cyc b : α)", "List α", lines))
+
+    # ---- calc_cyc_amp_gm_arrays_w_power_law --------------------------------------------------------
+    def reg_amp(tr, e):
+        callee = find_function(mod, 'calc_cyc_amp_array_w_power_law')
+        got = bind_call(tr, e, callee, src)
+        v, n, b = tr.tr(got['values'][1]), tr.tr(got['n_cyc'][1]), tr.tr(got['b'][1])
+        if v.kind != 'arr':
+            tr.fail(e, "argument values")
+        txt = f"cycAmpArray pow switchedPeaks {tr.mat(v, e)} {tr.scal(n, e)} {tr.scal(b, e)}"
+        return arr_of(tr.bind(txt)) if amp_monadic else arr_of(f"({txt})")
+    fn = find_function(mod, 'calc_cyc_amp_gm_arrays_w_power_law')
+    check_params(fn, ['values0', 'values1', 'n_cyc', 'b'])
+    env = {'values0': arr_of('values0'), 'values1': arr_of('values1'), 'n_cyc': V('scal', 'n_cyc'), 'b': V('scal', 'b')}
+    t = Tr(fn.name, src, mod, env, registry={'calc_cyc_amp_array_w_power_law': reg_amp}, opts={'sqrt': True})
+    lines = t.block(fn.body, 'arr')
+    defs.append(emit_def("`calc_cyc_amp_gm_arrays_w_power_law(values0, values1, n_cyc, b)` for a scalar `b`; `sqrt = np.sqrt`", 'cycAmpGmArrays',
+                         "(pow : α → α → α) (sqrt : α → α) (switchedPeaks : List α → List Nat) (values0 values1 : List α) (n_cyc b : α)",
+                         "List α", lines))
+
+    # ---- calc_cyc_amp_combined_arrays_w_power_law --------------------------------------------------
+    fn = find_function(mod, 'calc_cyc_amp_combined_arrays_w_power_law')
+    check_params(fn, ['values0', 'values1', 'n_cyc', 'b'])
+    t = Tr(fn.name, src, mod, env, registry={SWITCHED: reg_switched}, opts={'pow': True})
+    lines = t.block(fn.body, 'arr')
+    defs.append(emit_def("`calc_cyc_amp_combined_arrays_w_power_law(values0, values1, n_cyc, b)`", 'cycAmpCombinedArrays',
+                         "(pow : α → α → α) (switchedPeaks : List α → List Nat) (values0 values1 : List α) (n_cyc b : α)", "List α", lines))
+
+    text = ["-- GENERATED by tools/py2lean_x_im.py from eqsig/im.py (power-law cycle counting, scalar exponent). Do not edit.",
+            "import EqsigVerif.Prelude.Np", "import EqsigVerif.Prelude.Wire", "import EqsigVerif.Model.PowerLaw", "",
+            "set_option linter.unusedVariables false", f"namespace EqsigVerif.{ns}.ImPower", "open EqsigVerif EqsigVerif.Wire", "",
+            PREAMBLE_PARTIAL, PREAMBLE_MAX,
+            "variable {α : Type} [Add α] [Mul α] [Div α] [Neg α] [LT α] [DecidableLT α] [Inhabited α]",
+            "  [OfNat α 0] [OfNat α 1] [OfNat α 2] [OfScientific α]", "",
+            "/-- `scipy.interpolate.interp1d(xs, ys, kind='previous')(q)` on integer knots: the value at the last knot `≤ q`",
+            "(hand model `Model.PowerLaw.prevKnot`, scanning the knots in order) -/",
+            "def interp1dPrevious (xs : List Nat) (ys : List α) (q : Nat) : α := Model.PowerLaw.prevKnot q 0 (xs.zip ys)", ""] + \
+        ["\n\n".join(defs)] + ["", f"end EqsigVerif.{ns}.ImPower", ""]
+    return {"ImPower.lean": "\n".join(text)}
+
+
+# ==============================================================================================
+# target 2: calc_cav_dp (loop structure; the literals 9.81 / 0.025 are parameters `g` / `gate`, extracted in Gen/Consts.lean)
+# ==============================================================================================
+
+def names_in(nodes):
+    return {n.id for st in nodes for n in ast.walk(st) if isinstance(n, ast.Name)}
+
+
+def gen_im_cavdp(repo, ns):
+    src = open(os.path.join(repo, 'eqsig', 'im.py')).read()
+    mod = ast.parse(src)
+    fn = find_function(mod, 'calc_cav_dp')
+    check_params(fn, ['asig'])
+    # the two literals gen_consts extracts (same recognisers): acc_in_g = asig.values / <g>, (pga - <gate>)
+    subst, gates = {}, set()
+    for n in ast.walk(fn):
+        if isinstance(n, ast.Assign) and isinstance(n.targets[0], ast.Name) and n.targets[0].id == 'acc_in_g' and \
+                isinstance(n.value, ast.BinOp) and isinstance(n.value.op, ast.Div) and isinstance(n.value.right, ast.Constant):
+            subst[id(n.value.right)] = 'g'
+        if isinstance(n, ast.Compare) and isinstance(n.left, ast.BinOp) and isinstance(n.left.op, ast.Sub) and \
+                isinstance(n.left.left, ast.Name) and n.left.left.id == 'pga' and isinstance(n.left.right, ast.Constant):
+            subst[id(n.left.right)] = 'gate'
+            gates.add(lit_text(ast.get_source_segment(src, n.left.right)))
+    if 'g' not in subst.values() or len(gates) != 1:
+        raise Untranslatable(fn.name, fn.lineno, "acc_in_g = values / <literal> or a single (pga - <literal>) literal not found")
+    attrs = {'values': arr_of('a'), 'dt': V('scal', 'dt'), 'time': arr_of('time')}
+    opts = {'loops': True, 'le': True, 'lit_subst': subst}
+    body = [st for st in fn.body if not (isinstance(st, ast.Expr) and isinstance(st.value, ast.Constant))]
+    loops = [i for i, st in enumerate(body) if isinstance(st, ast.For)]
+    if len(loops) != 1:
+        raise Untranslatable(fn.name, fn.lineno, "expected exactly one top-level for loop")
+    pre, loop, post = body[:loops[0]], body[loops[0]], body[loops[0] + 1:]
+    # ---- prologue: straight-line assignments
+    t = Tr(fn.name, src, mod, {'asig': V('obj', attrs)}, opts=opts)
+    order = []
+    for st in pre:
+        if isinstance(st, ast.ImportFrom) and st.module == 'scipy.integrate':
+            continue
+        if not (isinstance(st, ast.Assign) and len(st.targets) == 1 and isinstance(st.targets[0], ast.Name)):
+            t.fail(st, "statement before the loop")
+        t.env[st.targets[0].id] = t.tr(st.value)
+        order.append(st.targets[0].id)
+    # ---- the loop header
+    if loop.orelse or not isinstance(loop.target, ast.Name) or not isinstance(loop.iter, ast.Call) or t.np_name(loop.iter.func) != 'range' \
+            or loop.iter.keywords or len(loop.iter.args) not in (1, 2):
+        t.fail(loop, "loop header")
+    if len(loop.iter.args) == 2 and t.index_const(loop.iter.args[0]) != 0:
+        t.fail(loop, "loop does not start at 0")
+    count = t.tr(loop.iter.args[-1])
+    if count.kind != 'nat':
+        t.fail(loop, "loop count")
+    if loop.target.id in names_in(loop.body):
+        t.fail(loop, "the loop variable is used in the body")
+    # ---- state = names defined before the loop and assigned (or appended to) in the body, in order of first definition
+    assigned = set()
+    for st in ast.walk(ast.Module(body=loop.body, type_ignores=[])):
+        if isinstance(st, ast.Assign):
+            assigned |= {x.id for x in st.targets if isinstance(x, ast.Name)}
+        if isinstance(st, ast.Call) and isinstance(st.func, ast.Attribute) and st.func.attr == 'append' and isinstance(st.func.value, ast.Name):
+            assigned.add(st.func.value.id)
+    state = [x for x in order if x in assigned]
+    kinds = {x: t.env[x].kind for x in state}
+    if not state or any(k not in ('int', 'arr') for k in kinds.values()):
+        t.fail(loop, f"loop state {state}")
+    # kinds of the state components: integer-initialised names are Nat when only combined with Nat in the body (start), else α
+    tb = t.sub()
+    tb.lines = []
+    proj = ['st.1'] if len(state) == 1 else [('st' + '.2' * i + '.1') for i in range(len(state) - 1)] + ['st' + '.2' * (len(state) - 1)]
+    init = []
+    styp = []
+    nat_state = set(opts.get('nat_state', ('start',)))
+    for x, pj in zip(state, proj):
+        v0 = t.env[x]
+        if v0.kind == 'arr':
+            if not getattr(v0, 'empty', False):
+                t.fail(loop, f"initial value of {x}")
+            tb.env[x] = arr_of(pj)
+            init.append('[]')
+            styp.append('List α')
+        elif x in nat_state:
+            tb.env[x] = V('nat', pj)
+            init.append(v0.text)
+            styp.append('Nat')
+        else:
+            tb.env[x] = V('scal', pj)
+            init.append(f"({v0.text} : α)")
+            styp.append('α')
+    tb.loop_body(loop.body)
+    outs = []
+    for x, ty in zip(state, styp):
+        v = tb.env[x]
+        if ty == 'Nat':
+            outs.append(strip_outer(tb.nat(v, loop)))
+        elif ty == 'α':
+            outs.append(strip_outer(tb.scal(v, loop)))
+        else:
+            outs.append(strip_outer(tb.mat(v, loop)))
+    sty = " × ".join(styp)
+    fparams = "(int : α → Nat) (arange3 : α → α → α → List α) (trapezoid : List α → List α → α)"
+    step = do_def(f"body of `for {loop.target.id} in range(0, total_seconds)` of `calc_cav_dp`: state `({', '.join(state)})` ↦ new state; "
+                  f"`a = asig.values`, `dt = asig.dt`, `g`/`gate` = the literals `Consts.cavdpG`/`Consts.cavdpGate`", 'cavDpStep',
+                  f"{fparams} (dt g gate : α) (a : List α) (st : {sty})", f"Except ErrKind ({sty})",
+                  tb.lines + [f"pure ({', '.join(outs)})"])
+    # ---- after the loop
+    t.counter = tb.counter
+    fin = t.bind(f"forRange (cavDpStep int arange3 trapezoid dt g gate a) {count.text} ({', '.join(init)})")
+    for x, pj in zip(state, proj):
+        ty = styp[state.index(x)]
+        pjf = pj.replace('st', fin, 1)
+        t.env[x] = arr_of(pjf) if ty == 'List α' else V('nat' if ty == 'Nat' else 'scal', pjf)
+    lines = t.block(post, 'arr')
+    main = do_def("`calc_cav_dp(asig)` with `a = asig.values`, `dt = asig.dt`, `time = asig.time`; `int`, `arange3 = np.arange(start, stop, step)`, "
+                  "`trapezoid = scipy.integrate.trapezoid(y, x)`, `interp = np.interp(x, xp, fp)` are parameters", 'cavDp',
+                  f"{fparams} (interp : List α → List Nat → List α → Except ErrKind (List α)) (dt g gate : α) (a time : List α)",
+                  "Except ErrKind (List α)", lines)
+    text = ["-- GENERATED by tools/py2lean_x_im.py from eqsig/im.py (calc_cav_dp: loop structure). Do not edit.",
+            "import EqsigVerif.Prelude.Np", "import EqsigVerif.Prelude.Wire", "",
+            "set_option linter.unusedVariables false", f"namespace EqsigVerif.{ns}.ImCavDp", "open EqsigVerif EqsigVerif.Wire", "",
+            PREAMBLE_PARTIAL, PREAMBLE_MAX, PREAMBLE_LOOP,
+            "variable {α : Type} [Add α] [Sub α] [Mul α] [Div α] [Neg α] [LT α] [DecidableLT α] [LE α] [DecidableLE α] [NatCast α] [Inhabited α]",
+            "  [OfNat α 0] [OfNat α 1]", "", step, "", main, "", f"end EqsigVerif.{ns}.ImCavDp", ""]
+    return {"ImCavDp.lean": "\n".join(text)}
+
+
+TARGETS += [gen_im_dur, gen_im_cavdp, gen_im_power]
 
 if __name__ == '__main__':
     import argparse
